@@ -17,6 +17,7 @@ RULE = ("(1) for every built-in command of the CSV library set a valid base mode
         "wrong-fuzziness results, bad paths, unknown command, duplicate result); (2) the same faults at random positions of random "
         "models with sinks; (3) every producer x consumer pairing of built-in data commands; (4) unfaulted models must be accepted; "
         "distinct by (fault kind, command, parameter, variant) / (producer, consumer)")
+SCRATCH_PER_CASE = True      # no directory is used beyond the case that asked for it
 REQUIRED_COUNTERS = ["faulty_models_through_the_tool", "valid_models_through_the_tool_by_bare_name", "history_steps_checked", "rejections_checked", "side_effect_free_rejections", "acceptances_checked", "pairings_checked", "exec_events_seen_in_valid_runs", "netcdf_model_cases", "api_built_models", "incremental_rejections_checked", "user_subclass_models", "shared_argument_programs", "valid_models_through_the_tool"]
 ASSUMPTIONS = ["a list or tuple given to a String/Path parameter is don't-care (string cleaning stringifies by design)",
                "value-dependent run-time errors (InvalidThresholds, DuplicateRawValues, ...) are not acceptance errors",
